@@ -1878,7 +1878,7 @@ func (g *c03) genDerStream() {
 		san(fmt.Sprintf("uri-odd-%d", i), false, []encSAN{{6, []byte(u)}})
 	}
 	san("separator-in-dns", false, []encSAN{{2, []byte("a.example, b.example")}})
-	san("separator-in-email", false, []encSAN{{1, []byte("\"a, evil.example, b\"@x.example")}})
+	san("separator-in-email", true, []encSAN{{1, []byte("\"a, evil.example, b\"@x.example")}})
 	san("long-tag", false, nil, []byte{0x9f, 0x21, 0x01, 0x41})
 	san("universal-tags", false, nil, []byte{0x0c, 0x01, 0x41}, []byte{0x02, 0x01, 0x05}, []byte{0x16, 0x01, 0x41})
 	san("constructed-dns", false, nil, tlv(0xa2, []byte("b.example")))
